@@ -104,6 +104,30 @@ impl<'a> LoweringManager<'a> {
     }
   }
 
+  /// The loop values are the values of all loop variables in the next iteration, taken at once. Both back
+  /// ends assign them one after the other, so a loop value that reads a loop variable assigned earlier in
+  /// that sequence is saved in a temporary at the end of the loop body first.
+  fn save_loop_values_read_after_reassignment(
+    &mut self,
+    mut loop_variables: Vec<lir::GenenalLoopVariable>,
+    mut statements: Vec<lir::Statement>,
+  ) -> (Vec<lir::GenenalLoopVariable>, Vec<lir::Statement>) {
+    for i in 0..loop_variables.len() {
+      if let lir::Expression::Variable(n, t) = loop_variables[i].loop_value.clone() {
+        if loop_variables[..i].iter().any(|it| it.name == n) {
+          let temp = self.heap.alloc_temp_str();
+          statements.push(lir::Statement::Cast {
+            name: temp,
+            type_: t.clone(),
+            assigned_expression: lir::Expression::Variable(n, t.clone()),
+          });
+          loop_variables[i].loop_value = lir::Expression::Variable(temp, t);
+        }
+      }
+    }
+    (loop_variables, statements)
+  }
+
   fn lower_stmt_block(&mut self, stmts: Vec<mir::Statement>) -> Vec<lir::Statement> {
     stmts.into_iter().flat_map(|s| self.lower_stmt(s)).collect_vec()
   }
@@ -227,6 +251,8 @@ impl<'a> LoweringManager<'a> {
           })
           .collect_vec();
         let statements = self.lower_stmt_block(statements);
+        let (loop_variables, statements) =
+          self.save_loop_values_read_after_reassignment(loop_variables, statements);
         let break_collector = if let Some(mir::VariableName { name, type_ }) = break_collector {
           Some((name, self.lower_type(type_)))
         } else {
